@@ -129,7 +129,15 @@ def main(seed, ncases, driver, out):
             continue
         hermitian = rnd.random() < 0.75
         needk = 2 if tr in ("permute-parameters", "merge-parameters") else (1 if tr in ("pad-parameter", "power-substitution") else None)
+        weak = tr == "scale" and not exact and c % 24 == 0
+        if weak: needk = 1
         P = problem(rnd, hermitian, needk)
+        if weak:
+            # a weak first-order perturbation followed to fifth order: every order must still be c^n times the base, although its size c^n falls below any absolute threshold
+            for _ in range(30):
+                if any(sum(n) == 1 and np.abs(m).max() > 0 for n, m in P["terms"].items()) and P["d"] <= 5: break
+                P = problem(rnd, hermitian, 1)
+            P["terms"] = {n: m for n, m in P["terms"].items() if sum(n) <= 1}
         if tr == "shift":
             # prefer problems in which a fully diagonalised block holds distinct levels: there the shift must not change what counts as degenerate
             for _ in range(30):
@@ -148,14 +156,17 @@ def main(seed, ncases, driver, out):
         k, d, N = P["k"], P["d"], P["N"]
         maxn = (3,) if k == 1 else (2, 2)
         if exact: maxn = (2,) if k == 1 else (1, 1)
+        if weak: maxn = (5,)
         if rnd.random() < 0.3: P["int_h0"] = True        # (the base problem only: the transformed one is built from float arrays)
-        Q = copy.deepcopy(P); Q.pop("int_h0", None); maxq = maxn; vectors = None; rel = None; post = lambda name, m: m
+        Q = copy.deepcopy(P); Q.pop("int_h0", None); maxq = maxn; vectors = None; rel = None; post = lambda name, m: m; post_n = None
         rng = np.random.default_rng(rnd.randrange(2**31)); carrier = rnd.choice(["dense", "sparse"])
         try:
             if tr == "scale":
-                cs = [rnd.choice([2.0, -1.0, 0.5, 3.0]) for _ in range(k)]; fac = lambda n: float(np.prod([cs[i] ** n[i] for i in range(k)]))
+                # weak perturbations too (powers of two: exact): order n is then of size c^n, far below any absolute threshold, and must still be c^n times the base
+                cs = [rnd.choice([2.0, -1.0, 0.5, 3.0]) for _ in range(k)] if not weak else [rnd.choice([2.0 ** -13, -(2.0 ** -14), 2.0 ** -15])]; fac = lambda n: float(np.prod([cs[i] ** n[i] for i in range(k)]))
                 Q["terms"] = {n: m * fac(n) for n, m in P["terms"].items()}
-                rel = lambda base, name, n: base[(name, n)] * fac(n)
+                rel = lambda base, name, n: base[(name, n)]
+                post_n = lambda name, n, m: m / fac(n)                      # compared relative to the size of the order
             elif tr == "permute-parameters":
                 Q["terms"] = {(n[1], n[0]): m for n, m in P["terms"].items()}
                 rel = lambda base, name, n: base[(name, (n[1], n[0]))]
@@ -255,7 +266,7 @@ def main(seed, ncases, driver, out):
         for (name, n), m in other.items():
             try: want = rel(base, name, n)
             except KeyError: continue
-            m = post(name, m)
+            m = post(name, m) if post_n is None else post_n(name, n, m)
             evals += 1; err = float(np.abs(m - want).max()); scale = 1 + float(np.abs(want).max()); worst = max(worst, err / scale)
             if err > 1e-9 * scale: bad = bad or {"kind": "relation-fails", "series": name, "order": list(n), "abs_err": err}
         distinct += 1
